@@ -52,6 +52,7 @@ PROPS = {
     'C14': dict(suites=[('hash', [])], column='kv', relevant=lambda r: r['name'] in HASH_CMDS, title='Hash commands'),
     'C15': dict(suites=[('list', [])], column='kv', relevant=lambda r: r['name'] in LIST_CMDS, title='List commands'),
     'C16': dict(suites=[('set', [])], column='kv', relevant=lambda r: r['name'] in SET_CMDS, title='Set commands'),
+    'C08': dict(suites=[('evict', [])], column='ev', clscol='ecls', relevant=lambda r: True, title='Max-memory policy'),
     'C19': dict(suites=ALL_DATA, column='mem', clscol='mcls', relevant=lambda r: True, title='Memory figure is a function of the dataset'),
     'C20': dict(suites=ALL_DATA, column='iso', relevant=lambda r: True, title='Logical databases are isolated'),
 }
@@ -266,6 +267,18 @@ def run_suite(cx, work, suite, args, seed, tier, replay=None):
                 name = 'authorize'
             rows.append(dict(seq=seq, now=0, db=0, cmd=cmd, kind=kind, payload=payload, pre='', post='', name=name,
                              model=m[0], detail=m[1], f=m[2], suite=suite, line=l[0]))
+        elif l.startswith('V '):
+            w = l.rstrip('\n').split(' ')
+            i = w.index('C')
+            argc = int(w[i + 1])
+            cmd = [unx(x) for x in w[i + 2:i + 2 + argc]]
+            sidx = w.index('S', i + 2 + argc)
+            ridx = len(w) - 1 - w[::-1].index('R')
+            eidx = len(w) - 1 - w[::-1].index('E')
+            m = verd.get(w[1], ('?', 'no verdict', {}))
+            rows.append(dict(seq=w[1], now=int(w[2]), db=int(w[3]), cmd=cmd, kind=w[ridx + 1], payload=unx(w[ridx + 2]),
+                             pre=' '.join(w[sidx + 1:ridx]), post=' '.join(w[eidx + 1:]), name=(cmd[0].decode('latin1').lower() if cmd else ''),
+                             model=m[0], detail=m[1], f=dict(m[2], shape=w[6] + ':' + w[5]), suite=suite))
         elif l.startswith('T '):
             t = parse_tline(l.rstrip('\n'))
             m = verd.get(t['seq'], ('?', 'no verdict', {}))
